@@ -1380,6 +1380,11 @@ fn snn_cases(ctx: &mut Ctx) {
         (format!("@CFG:3:{}~BYE:7", t90), vec![p1.clone(), p3.clone()]),
         (format!("@LNX:3:3/BYE:7~-~SND:3:{}", q(&p2)), vec![p1.clone(), p2.clone()]),
         ("@-".to_string(), vec![p1.clone()]),
+        // a nested transfer on this sign whose own page source PANICS after its pages; the iterator catches the panic ('!')
+        // and carries on
+        (format!("!SNX:3:{}", q(&p2)), vec![p1.clone(), p3.clone()]),
+        (format!("-~!SNX:3:{}+{}/BYE:7", q(&p2), q(&p1)), vec![p1.clone(), p2.clone()]),
+        (format!("@!SNX:3:{}~!SNX:7:{}", q(&p1), q(&p2)), vec![p3.clone()]),
     ];
     let verdicts: Vec<Vec<&str>> = vec![
         vec!["PFL"],
@@ -1408,7 +1413,7 @@ fn snn_cases(ctx: &mut Ctx) {
     };
     for (ni, (nested, pages)) in nesteds.iter().enumerate() {
         let op = format!("SNN.{}.{}.{}", own, nested, if pages.is_empty() { "-".to_string() } else { pages.join("+") });
-        let same_snd = nested.matches("SND:3:").count();
+        let same_snd = nested.matches("SND:3:").count() + nested.matches("SNX:3:").count();
         for (vi, v) in verdicts.iter().enumerate() {
             let hello = if vi >= 10 { "UNC" } else { ["UNC", "CRX", "PLD", "RTR"][(ni + vi) % 4] };
             let full = record(&op, v, hello, None);
